@@ -546,6 +546,7 @@ class Selection:
         # two consequences of the definition that need induction (so they are stated): everything kept / nothing kept
         ctx.assume(z3.Implies(ctx.forall_range(0, n, lambda t: keep(t)), z3.And(M == n, ctx.forall_range(0, n, lambda j: sel(j) == j))))
         ctx.assume(z3.Implies(ctx.forall_range(0, n, lambda t: z3.Not(keep(t))), M == 0))
+        ctx.assume(z3.Implies(M == 0, ctx.forall_range(0, n, lambda t: z3.Not(keep(t)))))
 
 
 def selection_for(ex, n, keep):
@@ -604,6 +605,9 @@ def make_dict(ex, r, node):
 def call(ex, fn, args, kw, node):
     if isinstance(fn, FnRef):
         model = ex.reg.fn.get(fn.name)
+        if model is None and fn.name.startswith("numpoly.") and fn.name.count(".") >= 2:
+            # numpoly.construct.f / numpoly.align.f ...: the package re-exports its functions in one flat namespace
+            model = ex.reg.fn.get("numpoly." + fn.name.split(".")[-1])
         if model is None:
             raise U(f"no contract or axiom for {fn.name}", node)
         return model(ex, args, kw, node)
